@@ -265,6 +265,7 @@ func emitChecks(p *pkg, out string) {
 	}
 	lf := newLean("Checks", "Ach.Facts")
 	lf.pf("def optFlags : List String := %s\n\n", leanStrList(p.optFlags()))
+	p.emitOptsMerge(lf)
 
 	// batch types: which common checks each SEC Validate calls
 	var batchTypes []string
@@ -502,4 +503,129 @@ func emitLocks(p *pkg, out string) {
 	}
 	lf.pf("\n]\n")
 	lf.write(out)
+}
+
+// emitOptsMerge reads ValidateOpts.merge: the boolean fields of ValidateOpts, the rows `F: v.L || other.R` of the
+// composite literal it returns, whether it starts with the two nil guards, and which fields the statements after the
+// literal assign.
+func (p *pkg) emitOptsMerge(lf *leanFile) {
+	var boolFlags []string
+	if ts := p.types["ValidateOpts"]; ts != nil {
+		if st, ok := ts.Type.(*ast.StructType); ok {
+			for _, f := range st.Fields.List {
+				if p.src(f.Type) == "bool" {
+					for _, n := range f.Names {
+						boolFlags = append(boolFlags, n.Name)
+					}
+				}
+			}
+		}
+	}
+	lf.pf("def optBoolFlags : List String := %s\n\n", leanStrList(boolFlags))
+	type row struct{ f, l, r string }
+	var rows []row
+	guards := false
+	var later []string
+	shape := true
+	fd := p.funcs["ValidateOpts.merge"]
+	if fd == nil || fd.Body == nil || fd.Recv == nil || len(fd.Recv.List) != 1 || len(fd.Recv.List[0].Names) != 1 ||
+		fd.Type.Params == nil || len(fd.Type.Params.List) != 1 || len(fd.Type.Params.List[0].Names) != 1 {
+		shape = false
+	} else {
+		rv := fd.Recv.List[0].Names[0].Name
+		ov := fd.Type.Params.List[0].Names[0].Name
+		body := fd.Body.List
+		isGuard := func(s ast.Stmt, nilVar, retVar string) bool {
+			is, ok := s.(*ast.IfStmt)
+			if !ok || is.Init != nil || is.Else != nil || len(is.Body.List) != 1 {
+				return false
+			}
+			return p.src(is.Cond) == nilVar+" == nil" && p.src(is.Body.List[0]) == "return "+retVar
+		}
+		if len(body) >= 2 && isGuard(body[0], rv, ov) && isGuard(body[1], ov, rv) {
+			guards = true
+			body = body[2:]
+		}
+		outVar := ""
+		for i, s := range body {
+			if i == 0 {
+				as, ok := s.(*ast.AssignStmt)
+				if !ok || len(as.Lhs) != 1 || len(as.Rhs) != 1 {
+					shape = false
+					break
+				}
+				ue, ok := as.Rhs[0].(*ast.UnaryExpr)
+				if !ok || ue.Op != token.AND {
+					shape = false
+					break
+				}
+				cl, ok := ue.X.(*ast.CompositeLit)
+				if !ok || p.src(cl.Type) != "ValidateOpts" {
+					shape = false
+					break
+				}
+				outVar = p.src(as.Lhs[0])
+				for _, el := range cl.Elts {
+					kv, ok := el.(*ast.KeyValueExpr)
+					if !ok {
+						shape = false
+						continue
+					}
+					be, ok := kv.Value.(*ast.BinaryExpr)
+					if !ok || be.Op != token.LOR {
+						rows = append(rows, row{p.src(kv.Key), "?" + p.src(kv.Value), "?"})
+						continue
+					}
+					l, r := p.src(be.X), p.src(be.Y)
+					if strings.HasPrefix(l, rv+".") && strings.HasPrefix(r, ov+".") {
+						rows = append(rows, row{p.src(kv.Key), strings.TrimPrefix(l, rv+"."), strings.TrimPrefix(r, ov+".")})
+					} else {
+						rows = append(rows, row{p.src(kv.Key), "?" + l, "?" + r})
+					}
+				}
+				continue
+			}
+			if rs, ok := s.(*ast.ReturnStmt); ok {
+				if i != len(body)-1 || len(rs.Results) != 1 || p.src(rs.Results[0]) != outVar {
+					shape = false
+				}
+				continue
+			}
+			// anything else: record every `out.X = …` it contains
+			ast.Inspect(s, func(n ast.Node) bool {
+				switch x := n.(type) {
+				case *ast.AssignStmt:
+					for _, l := range x.Lhs {
+						src := p.src(l)
+						if strings.HasPrefix(src, outVar+".") {
+							later = append(later, strings.TrimPrefix(src, outVar+"."))
+						} else {
+							later = append(later, "?"+src)
+						}
+					}
+				case *ast.IncDecStmt:
+					later = append(later, "?"+p.src(x.X))
+				case *ast.ReturnStmt:
+					later = append(later, "?return")
+				}
+				return true
+			})
+		}
+		if len(body) == 0 {
+			shape = false
+		}
+	}
+	lf.pf("/-- `ValidateOpts.merge`: rows (field, receiver field, argument field) of the literal `F: v.L || other.R` -/\n")
+	lf.pf("def optsMergeRows : List (String × String × String) := [\n")
+	for i, r := range rows {
+		sep := ","
+		if i == len(rows)-1 {
+			sep = ""
+		}
+		lf.pf("  (%s, %s, %s)%s\n", leanStr(r.f), leanStr(r.l), leanStr(r.r), sep)
+	}
+	lf.pf("]\n\n")
+	lf.pf("def optsMergeNilGuards : Bool := %v\n", guards)
+	lf.pf("def optsMergeShape : Bool := %v\n", shape)
+	lf.pf("def optsMergeLaterAssigned : List String := %s\n\n", leanStrList(later))
 }
